@@ -75,7 +75,7 @@ var fuel int64
 // iteration asks the solver about ever larger terms exhausts hours, not instructions.
 var pathDeadline time.Time
 
-const pathSeconds = 180
+const pathSeconds = 90
 
 func tick() {
 	X.Instrs++
@@ -270,10 +270,17 @@ func (s *solver) sexpr() string {
 
 // check: is pc ∧ extra satisfiable?  Any answer other than sat/unsat closes the
 // path as inconclusive.
+func pathTimeCheck() {
+	if !pathDeadline.IsZero() && time.Now().After(pathDeadline) {
+		panic(abortPath{KFuel, fmt.Sprintf("one path ran for more than %d s", pathSeconds)})
+	}
+}
+
 func (e *Explorer) check(extra string) bool {
 	if extra == "true" {
 		extra = "true"
 	}
+	pathTimeCheck()
 	t0 := time.Now()
 	e.Queries++
 	r := "unknown"
@@ -377,6 +384,7 @@ func (e *Explorer) model(extra string) (map[string]string, []string, bool) {
 		}
 		return m, e.renderObs(nil), true
 	}
+	pathTimeCheck()
 	t0 := time.Now()
 	defer func() { e.SolverNS += time.Since(t0) }()
 	e.z.send("(push 1)")
